@@ -1,6 +1,6 @@
 """C01 — chronological execution."""
 import simgen, oracles
-from props import simprops
+from props import simprops, c08
 
 HARNESS = ("simh",)
 TRUSTED = ["tai_time arithmetic and its overflow panics are outside the model (times are mathematical integers, generated magnitudes < 2^61 ns)",
@@ -34,6 +34,10 @@ def tie(rep, tier, rng, model_ok):
                   ("clock-probe", p, (1, 2), ORACLES + (oracles.o_clock_probe,), nontrivial),
                   ("multi-model", b, (1, 4) if q else (1, 2, 3, 4, 8, 16), (oracles.o_harness, oracles.o_time, oracles.o_clock), nontrivial)],
                  "sched: one self-scheduling model, driver schedules one-shot/keyed/periodic events on a 10-ns lattice (ties frequent), step/step_until on and around deadlines, cancellations, scripted clock; exact log comparison. clock-probe: the scripted clock, holding a Scheduler handle, requests an event at the deadline of the step in progress from inside Clock::synchronize (must be refused; the model sees a plain Synchronized answer). multi: 2-4 models in a DAG with small mailboxes, multiset comparison on several thread counts. non-trivial = >=2 handlers fired and a stepping command")
+    # requests made through a Scheduler handle on another thread while the main thread steps (shared with C08): an
+    # accepted request must lie strictly after the time the step has reached - 'all pending actions are later than now'
+    rep.cov.setdefault("parts", {})
+    c08.race_part(rep, rng, model_ok, 16 if q else 300)
 
 
 def replay(rep, path, model_ok):
